@@ -10,9 +10,29 @@
 pub mod ghost;
 pub mod layout;
 pub mod vw;
+pub mod stubs;
+pub mod model;
+pub mod spec;
+pub mod vectors_gen;
+#[cfg(all(test, not(kani)))]
+mod selftest;
 
 #[cfg(kani)]
-mod obl_c01;
+pub mod obl_c01;
+#[cfg(kani)]
+pub mod obl_reader;
+#[cfg(kani)]
+pub mod obl_bitreader;
+#[cfg(kani)]
+pub mod obl_c13;
+#[cfg(kani)]
+pub mod obl_c08;
+#[cfg(kani)]
+pub mod obl_codes;
+#[cfg(kani)]
+pub mod obl_c11;
+#[cfg(kani)]
+pub mod obl_c17;
 
 /// Concrete-playback tests written by /verif/bin/check when an obligation
 /// fails (empty otherwise); run natively with `cargo kani playback`.
